@@ -7,6 +7,8 @@ PROP = dict(
                  env=dict(quick=dict(VERIF_CASES=250), thorough=dict(VERIF_CASES=5000))),
             dict(name="dutch-v1", go_test="TestC10V1", runner="C10-v1",
                  env=dict(quick=dict(VERIF_CASES=150), thorough=dict(VERIF_CASES=3000))),
+            dict(name="dutch-v1-lend", go_test="TestC10V1Lend", runner="C10-v1",
+                 env=dict(quick=dict(VERIF_CASES=100), thorough=dict(VERIF_CASES=2000))),
         ],
         rule="dutch-price: case = (premium, end factor, duration, oracle price) from a lattice plus random durations/factors; every "
              "case posts the price through the real UpdateDutchAuction at t = 0, 1, D-1, D and 4-11 random instants and calls "
@@ -22,7 +24,11 @@ PROP = dict(
              "x/liquidation LiquidateVaults after a price drop, then 4-15 ops: MsgPlaceDutchBid by 3 bidders (collateral amounts: 1 unit, small, "
              "1-99 % of the remaining collateral or of the amount that fills the target, exactly / one off / twice that amount, all, all-1, "
              "all+1, leaving dust, wrong denom, zero, one poor bidder), auction.BeginBlocker ticks with oracle prices moving / inactive; "
-             "non-trivial = at least one bid succeeded",
+             "non-trivial = at least one bid succeeded. "
+             "dutch-v1-lend: case = lend auction parameters (buffer, cusp, duration), collateral asset rates (penalty, bonus), pair dust, "
+             "Decimals, lend reserve none/tiny/big, two borrow positions opened through MsgBorrowAlternate and seized by the real "
+             "x/liquidation LiquidateBorrows after a collateral price drop (re-liquidations inside a closing bid are picked up too), then the same "
+             "bid / tick mix through MsgPlaceDutchLendBid; non-trivial = at least one bid succeeded",
         modelled=["liquidation itself (LockedVault fields and the collateral transfer are taken from the implementation at each start op)",
                   "bank keeper as a ledger over the named accounts", "ESM branch of AuctionIterator and limit-order auto bids are not driven",
                   "lend-initiated close only as the transfer of TargetDebt to the pool module (not driven by the harness)",
@@ -32,7 +38,7 @@ PROP = dict(
     )
 
 MANIFEST = dict(
-    level_text="Both auction generations. Generation-2 Dutch auction (x/auctionsV2) modelled statement by statement with exact sdk.Dec arithmetic. Proved for all inputs: the posted price is non-increasing between restarts, at most the start price and non-negative; totals over any bid/tick history (paid <= target debt, received <= collateral); per-bid amounts. Proved for every closing bid without exception class: close completeness per initiator type incl. the external keeper incentive, and that the app reserve is debited exactly the shortfall, only when it covers it, and stays backed. The end-price clause is proved refuted (truncated time-to-zero, known finding C10-F1) and proved on the complement of the executable class. The two further defects found on the original tree (reserve top-up silently skipped: C10-F2; external close panics on the empty keeper address: C10-F3) are repaired by fixes/C10-F2 and fixes/C10-F3; the model follows the repaired code, their witnesses stay in the harness corpus and as Examples, and a recurrence is reported as a plain violation. Generation 1 (x/auction dutch.go, dutch_lend.go): totals by induction over any bid/tick history without price assumptions, per-bid price predicate, close completeness for vault and lend auctions; the end-price finding C10-F1 is the same arithmetic and reproduces there. The models are tied to /repo by differential runs of the real liquidation paths, MsgPlaceMarketBid / MsgPlaceDutchBid and the two BeginBlockers on every check.",
+    level_text="Both auction generations. Generation-2 Dutch auction (x/auctionsV2) modelled statement by statement with exact sdk.Dec arithmetic. Proved for all inputs: the posted price is non-increasing between restarts, at most the start price and non-negative; totals over any bid/tick history (paid <= target debt, received <= collateral); per-bid amounts. Proved for every closing bid without exception class: close completeness per initiator type incl. the external keeper incentive, and that the app reserve is debited exactly the shortfall, only when it covers it, and stays backed. The end-price clause is proved refuted (truncated time-to-zero, known finding C10-F1) and proved on the complement of the executable class. The two further defects found on the original tree (reserve top-up silently skipped: C10-F2; external close panics on the empty keeper address: C10-F3) are repaired by fixes/C10-F2 and fixes/C10-F3; the model follows the repaired code, their witnesses stay in the harness corpus and as Examples, and a recurrence is reported as a plain violation. Generation 1 (x/auction dutch.go, dutch_lend.go): totals by induction over any bid/tick history without price assumptions, per-bid price predicate, close completeness for vault and lend auctions; custody over any history; the end-price finding C10-F1 is the same arithmetic and reproduces there; for lend auctions the custody clause is proved refuted (unpaid bonus stranded in the module account, known finding C10-F4) and proved on the complement of the executable class. The models are tied to /repo by differential runs of the real liquidation paths, MsgPlaceMarketBid / MsgPlaceDutchBid and the two BeginBlockers on every check.",
     design_ref="DESIGN.md section 4 C10",
     level_note="Trusted: Coq kernel, extraction (ExtrOcamlBasic), OCaml runner, Go harness. Generation 1 (x/auction) vault and lend Dutch auctions are modelled too (bid, close, price update) and the vault ones are driven through the real x/liquidation and x/auction keepers. No axioms (Closed under the global context).",
     technique="Coq proof (monotonicity of Dec arithmetic, invariants by induction over bid/tick histories) + model/implementation correspondence run",
